@@ -31,7 +31,7 @@ CHECKS = {
             {"name": "c09", "run": "^TestC09_", "shards": {"quick": 4, "thorough": 16},
              "timeout": {"quick": 600, "thorough": 3000},
              "fuzz": ["FuzzC09"], "fuzztime": 180,
-             "checks": ["c09-roundtrip"]},
+             "checks": ["c09-roundtrip", "c09-stream"]},
         ],
     },
     "C10": {
@@ -41,6 +41,38 @@ CHECKS = {
              "timeout": {"quick": 600, "thorough": 3000},
              "fuzz": ["FuzzC10"], "fuzztime": 180,
              "checks": ["c10-parser"]},
+        ],
+    },
+    "C13": {
+        "level": "exploration",
+        "groups": [
+            {"name": "c13", "run": "^TestC13_", "shards": {"quick": 4, "thorough": 16},
+             "timeout": {"quick": 600, "thorough": 3000},
+             "checks": ["c13-batcher"]},
+        ],
+    },
+    "C15": {
+        "level": "exploration",
+        "groups": [
+            {"name": "c15", "run": "^TestC15_", "shards": {"quick": 4, "thorough": 16},
+             "timeout": {"quick": 600, "thorough": 3000},
+             "checks": ["c15-backoff"]},
+        ],
+    },
+    "C17": {
+        "level": "exploration",
+        "groups": [
+            {"name": "c17", "run": "^TestC17_", "shards": {"quick": 4, "thorough": 16},
+             "timeout": {"quick": 600, "thorough": 3000},
+             "checks": ["c17-matrix", "c17-ids", "c17-close"]},
+        ],
+    },
+    "C18": {
+        "level": "exploration",
+        "groups": [
+            {"name": "c18", "run": "^TestC18_", "shards": {"quick": 8, "thorough": 16},
+             "timeout": {"quick": 900, "thorough": 3000},
+             "checks": ["c18-model", "c18-once-burst"]},
         ],
     },
 }
